@@ -101,7 +101,7 @@ theorem GInv.pushNext {E : Env U π} (H : NHyp E) {fuel : Nat} {s s' : St U π} 
   · rename_i s1 hq
     simp only [Option.some.injEq] at hp; subst hp
     have hb := big_of_query E hq
-    obtain ⟨n1, st, _⟩ := big_nodup E hk hb h.ninv trivial
+    obtain ⟨n1, st, _⟩ := big_nodup E H.ghyp hb h.sinv trivial h.ninv trivial
     have s1' := (big_sound E H.ghyp hb h.sinv trivial).1
     have hsh := big_startHeap E hk hb
     refine ⟨⟨n1, s1', fun nt' => chainR_mono (st nt') _ (h.chain nt'), ?_, hsh ▸ h.front_nodup, h.em_nodup, h.em_der,
@@ -113,7 +113,7 @@ theorem GInv.pushNext {E : Env U π} (H : NHyp E) {fuel : Nat} {s s' : St U π} 
       exact absurd (query_initS E hk hb) (by rw [h0]; simp)
   · rename_i s1 q hq
     have hb := big_of_query E hq
-    obtain ⟨n1, st, npost⟩ := big_nodup E hk hb h.ninv trivial
+    obtain ⟨n1, st, npost⟩ := big_nodup E H.ghyp hb h.sinv trivial h.ninv trivial
     obtain ⟨s1', spost⟩ := big_sound E H.ghyp hb h.sinv trivial
     have hsh : s1.startHeap = s.startHeap := big_startHeap E hk hb
     have hd : Der E q nt := spost q rfl
